@@ -3,23 +3,30 @@ import json, os, shutil, subprocess, sys, tempfile
 from concurrent.futures import ThreadPoolExecutor
 VIS="api_analyzer/_ast_visitor.py"; GEN="stubs_generator/_stub_string_generator.py"; GS="stubs_generator/_generate_stubs.py"; HELP="stubs_generator/_helper.py"; GA="api_analyzer/_get_api.py"; DP="docstring_parsing/_docstring_parser.py"; MH="api_analyzer/_mypy_helpers.py"
 TY="api_analyzer/_types.py"
-REWRITES = [
- ("init file test via basename", GA, 'if ast_path.name == "__init__.py":', 'if ast_path.parts[-1] == "__init__.py":'),
- ("docstring from the first statement via index", "docstring_parsing/_helpers.py", '    for definition in definitions[:1]:\n        if isinstance(definition, nodes.ExpressionStmt) and isinstance(definition.expr, nodes.StrExpr):\n            full_docstring = definition.expr.value', '    if definitions:\n        first_statement = definitions[0]\n        if isinstance(first_statement, nodes.ExpressionStmt) and isinstance(first_statement.expr, nodes.StrExpr):\n            full_docstring = first_statement.expr.value'),
- ("registration guard operands swapped", GS, '        if file_path.stem == file_path.parent.name:', '        if file_path.parent.name == file_path.stem:'),
- ("matched docstrings kept in a set of ids", VIS, '            matched_docstrings: list[ResultDocstring] = []\n', '            matched_docstrings: list[ResultDocstring] = list()\n'),
- ("type-from-default condition reordered", VIS, '                if arg_type is None and (default_is_none or default_value is not None):', '                if (default_value is not None or default_is_none) and arg_type is None:'),
- ("module privacy through a local", VIS, '(qualified_import.alias is None and not is_internal(module_name))', '(qualified_import.alias is None and not module_name.startswith("_"))'),
- ("conditional branches with a tuple display", MH, '    for branch in [expr.if_expr, expr.else_expr]:', '    for branch in (expr.if_expr, expr.else_expr):'),
- ("alias of the own import via rsplit", GEN, '                if qualified_import.qualified_name.split(".")[-1] == node.name:', '                if qualified_import.qualified_name.rsplit(".", 1)[-1] == node.name:'),
- ("self type test via type()", VIS, '                        if isinstance(self_type, mp_types.Instance):', '                        if self_type is not None and isinstance(self_type, mp_types.Instance):'),
- ("missing import name tested with is not None", VIS, 'if mypy_type.type_of_any == mp_types.TypeOfAny.from_unimported_type and mypy_type.missing_import_name:', 'if mypy_type.type_of_any == mp_types.TypeOfAny.from_unimported_type and mypy_type.missing_import_name is not None:'),
- ("coroutine test reordered", VIS, '                    node.is_coroutine\n                    and isinstance(node_ret_type, mp_types.Instance)\n                    and node_ret_type.type.fullname == "typing.Coroutine"', '                    isinstance(node_ret_type, mp_types.Instance)\n                    and node.is_coroutine\n                    and node_ret_type.type.fullname == "typing.Coroutine"'),
- ("package parent via parents[0] is not used: parent twice", GS, '            corrected_module_dir = module_dir.parent\n', '            corrected_module_dir = module_dir.parent\n            corrected_module_dir = Path(corrected_module_dir)\n'),
- ("builtin class test with a set of prefixes", VIS, '            is_builtin_class = mypy_type.type.fullname.startswith(("builtins.", "typing."))', '            is_builtin_class = mypy_type.type.fullname.split(".")[0] in ("builtins", "typing")'),
- ("union items flattened in a separate statement", VIS, '            union_items = mp_types.flatten_nested_unions(mypy_type.items, handle_recursive=False)\n            return sds_types.UnionType(types=[self.mypy_type_to_abstract_type(item) for item in union_items])', '            flat_items = mp_types.flatten_nested_unions(mypy_type.items, handle_recursive=False)\n            translated = [self.mypy_type_to_abstract_type(item) for item in flat_items]\n            return sds_types.UnionType(types=translated)'),
- ("enum test extracted into a local in the walker", "api_analyzer/_ast_walker.py", '            if isinstance(node, ClassDef) and self.__is_enum(node):', '            if self.__is_enum(node) and isinstance(node, ClassDef):'),
+REWRITES_ALL = [
+ # fourth batch: behaviour-preserving rewrites of the code the repairs of the sixth round touched (the earlier batches are benign variants of the catalogue now)
+ ("member target test operands swapped", VIS, '            if attribute.node is None and isinstance(attribute, mp_nodes.MemberExpr):', '            if isinstance(attribute, mp_nodes.MemberExpr) and attribute.node is None:'),
+ ("by-name resolutions compared one by one", VIS, "                            if qname in {\n                                qualified_import.qualified_name,\n                                f\"{reexport_source.id.replace('/', '.')}.{qualified_import.qualified_name}\",\n                            } and (",
+  "                            if (\n                                qname == qualified_import.qualified_name\n                                or qname == f\"{reexport_source.id.replace('/', '.')}.{qualified_import.qualified_name}\"\n                            ) and ("),
+ ("member publicity through a local", VIS, '        if isinstance(parent, Class):\n            return parent.is_public\n', '        if isinstance(parent, Class):\n            class_is_public = parent.is_public\n            return class_is_public\n'),
+ ("tuple fallback test negated equality", VIS, '            if fallback.fullname != "builtins.tuple":', '            if not fallback.fullname == "builtins.tuple":'),
+ ("module docstring from the first statement by index", VIS, '        for definition in get_mypyfile_definitions(node)[:1]:\n            if isinstance(definition, mp_nodes.ExpressionStmt) and isinstance(definition.expr, mp_nodes.StrExpr):\n                docstring = definition.expr.value\n',
+  '        definitions = get_mypyfile_definitions(node)\n        if definitions and isinstance(definitions[0], mp_nodes.ExpressionStmt) and isinstance(definitions[0].expr, mp_nodes.StrExpr):\n            docstring = definitions[0].expr.value\n'),
+ ("None tested with a set like the booleans", MH, '        elif expr.name == "None":', '        elif expr.name in {"None"}:'),
+ ("matched inferred docstrings tested with a comprehension list", VIS, '                            if hash(docstring.type) == hash(result_type) and not any(\n                                docstring is matched for matched in matched_docstrings\n                            ):',
+  '                            already_matched = any(docstring is matched for matched in matched_docstrings)\n                            if hash(docstring.type) == hash(result_type) and not already_matched:'),
+ ("type variable name via rsplit", VIS, 'name=mypy_type.name.split(".")[-1], upper_bound=type_', 'name=mypy_type.name.rsplit(".", 1)[-1], upper_bound=type_'),
+ ("nested class filter with an early continue", GEN, '            if not is_internal(inner_class.name) and inner_class.name not in already_defined_names:\n                class_string = self._create_class_string(\n                    class_=inner_class,\n                    class_indentation=inner_indentations,\n                    in_reexport_module=True,\n                )\n                superclass_methods_text += f"\\n{class_string}\\n"\n                existing_names.add(inner_class.name)\n',
+  '            if is_internal(inner_class.name) or inner_class.name in already_defined_names:\n                continue\n            class_string = self._create_class_string(\n                class_=inner_class,\n                class_indentation=inner_indentations,\n                in_reexport_module=True,\n            )\n            superclass_methods_text += f"\\n{class_string}\\n"\n            existing_names.add(inner_class.name)\n'),
+ ("own nested class names united instead of updated", GEN, '        already_defined_names.update(inner_class.name for inner_class in class_.classes if inner_class.is_public)\n', '        already_defined_names = already_defined_names.union({inner_class.name for inner_class in class_.classes if inner_class.is_public})\n'),
+ ("relocated module id with dots through a local", GS, '            qname=module.id.replace("/", "."),\n            is_module=True,', '            qname=".".join(module.id.split("/")),\n            is_module=True,'),
+ ("re-exporting package spelled with dots once", VIS, "                    if qname in {reexport_name_backward, f\"{mod.id.replace('/', '.')}.{reexport_name_backward}\"}:", "                    source_package = mod.id.replace('/', '.')\n                    if qname in {reexport_name_backward, f\"{source_package}.{reexport_name_backward}\"}:"),
+ ("star import resolutions compared one by one", VIS, "                                        and module_qname\n                                        in {\n                                            wildcard_import.module_name,\n                                            f\"{reexport_source.id.replace('/', '.')}.{wildcard_import.module_name}\",\n                                        }",
+  "                                        and (\n                                            module_qname == wildcard_import.module_name\n                                            or module_qname == f\"{reexport_source.id.replace('/', '.')}.{wildcard_import.module_name}\"\n                                        )"),
+ ("finally block searched before the else block", MH, '            if stmt.else_body:\n                return_stmts += find_return_stmts_recursive(stmt.else_body.body)\n            if stmt.finally_body:\n                return_stmts += find_return_stmts_recursive(stmt.finally_body.body)', '            if stmt.finally_body:\n                return_stmts += find_return_stmts_recursive(stmt.finally_body.body)\n            if stmt.else_body:\n                return_stmts += find_return_stmts_recursive(stmt.else_body.body)'),
 ]
+import os as _os
+REWRITES=[r for r in REWRITES_ALL if not _os.environ.get("ONLY") or any(t in r[0] for t in _os.environ["ONLY"].split(","))]
 PROPS=[f"C{i:02d}" for i in range(1,21)]
 def run(prop, repo):
     o=subprocess.run(["/venv/bin/python","/verif/sa/run.py","variant-check",prop],env=dict(os.environ,SA_REPO=repo,SA_VARIANT="1"),capture_output=True,text=True)
